@@ -11,6 +11,7 @@
 
 inline int atomicInc(volatile int* x) { return ++*x; }
 inline int atomicDec(volatile int* x) { return --*x; }
+inline void atomicFence() {}
 
 #elif defined _WIN32
 
@@ -18,17 +19,20 @@ inline int atomicDec(volatile int* x) { return --*x; }
 
 inline int atomicInc(volatile int* x) { return InterlockedIncrement((long*)(x)); }
 inline int atomicDec(volatile int* x) { return InterlockedDecrement((long*)(x)); }
+inline void atomicFence() { MemoryBarrier(); }
 
 #elif defined(ASL_VERIF) && (__has_builtin(__sync_add_and_fetch) || (defined(__GNUC__) && ASL_C_VER >= 40102))
 
 // same primitives as the branch below, announced to the verification hook first
 inline int atomicInc(int volatile* x) { asl_verif_point(1, x); return __sync_add_and_fetch(x, 1); }
 inline int atomicDec(int volatile* x) { asl_verif_point(2, x); return __sync_sub_and_fetch(x, 1); }
+inline void atomicFence() { __sync_synchronize(); }
 
 #elif __has_builtin(__sync_add_and_fetch) || (defined(__GNUC__) && ASL_C_VER >= 40102)
 
 inline int atomicInc(int volatile* x) { return __sync_add_and_fetch(x, 1); }
 inline int atomicDec(int volatile* x) { return __sync_sub_and_fetch(x, 1); }
+inline void atomicFence() { __sync_synchronize(); } // full barrier, for the compiler too
 
 // gcc >= 4.7 ?
 //inline int atomicInc(int volatile* x) { return __atomic_add_fetch(x, 1, __ATOMIC_RELAXED); }
@@ -37,6 +41,7 @@ inline int atomicDec(int volatile* x) { return __sync_sub_and_fetch(x, 1); }
 #else
 #define ASL_NO_ATOMIC_OPS
 #include "Mutex.h"
+inline void atomicFence() {}
 #endif
 
 namespace asl {
